@@ -78,11 +78,11 @@ func TestVX_C15Cold(t *testing.T) {
 	if vx.ColdChild(entries) {
 		return
 	}
-	r := vx.Begin("C15", "cold-start", "each point operation (Double of a decoded point / of a fresh point / of the generator, Add, Negate, SetBytes+Bytes, SetBytes of an off-curve encoding, ScalarBaseMult, ScalarMult, ScalarMixedMult_Unsafe, GetAffineX of infinity) as the FIRST use of package sm2/internal in a fresh process, alone and by 8 goroutines released together in 4 (thorough 20) fresh processes; oracle sm2ref")
+	r := vx.Begin("C15", "cold-start", "each point operation (Double of a decoded point / of a fresh point / of the generator, Add, Negate, SetBytes+Bytes, SetBytes of an off-curve encoding, ScalarBaseMult, ScalarMult, ScalarMixedMult_Unsafe, GetAffineX of infinity) as the FIRST use of package sm2/internal in a fresh process, alone and by 8 goroutines released together in 10 (thorough 40) fresh processes; oracle sm2ref")
 	defer r.End()
-	procs := 4
+	procs := 10
 	if vx.Thorough() {
-		procs = 20
+		procs = 40
 	}
 	vx.ColdCheck(r, "TestVX_C15Cold", entries, want, 8, procs)
 }
